@@ -14,7 +14,7 @@ import math
 
 import numpy as np
 
-from ..core import AnalysisError, ClassInfo, call_name, dotted, kwarg
+from ..core import func_param_defaults, AnalysisError, ClassInfo, call_name, dotted, kwarg
 from .. import fdx, fold
 
 I2 = np.eye(2, dtype=complex)
@@ -307,6 +307,9 @@ PARAMETRIC = {
                                               [0, -1j * np.exp(-1j * gamma - 1j * chi) * np.sin(theta), np.exp(-1j * gamma + 1j * zeta) * np.cos(theta), 0],
                                               [0, 0, 0, np.exp(-2j * gamma - 1j * phi)]]),
                                           [(0.3, 0.1, 0.2, 0.4, 0.5), (np.pi / 2, 0, 0, 0, np.pi / 6), (1.0, -0.3, 0.7, -0.2, 2.0)]),
+    'cirq.ops.fourier_transform.PhaseGradientGate': (('num_qubits', 'exponent'),
+                                                     lambda n, e: np.diag([np.exp(2j * np.pi * k * e / 2 ** n) for k in range(2 ** n)]),
+                                                     [(2, 0.5), (3, 3), (3, -1.5), (2, 1), (1, 2.5), (3, 0.25), (2, -3)]),
     'cirq.ops.phased_x_z_gate.PhasedXZGate': (('x_exponent', 'z_exponent', 'axis_phase_exponent'),
                                               lambda x, z, a: _Zp(a + z) @ _Xp(x) @ _Zp(-a),
                                               [(x, z, a) for x in (-1.5, -0.5, 0.5, 1.5, 0.3, -0.7, 1, 0, 2, -1) for z, a in ((0, 0), (0.25, 0.5), (-0.6, 0.2))]),
@@ -329,6 +332,44 @@ def parametric_rule(ctx, repo):
                 self_obj['_' + n_] = v
             if 'phi' in self_obj:
                 self_obj['phase'] = self_obj['phi']
+            # the object as its own constructor builds it: what __init__ stores (canonicalised, converted, wrapped) is what _unitary_ sees
+            init = ci.methods.get('__init__')
+            if init is not None:
+                built = {}
+                env0 = {'self': built}
+                dflt = func_param_defaults(init)
+                for a_ in init.args.args[1:] + init.args.kwonlyargs:
+                    if a_.arg in pnames:
+                        env0[a_.arg] = pv[pnames.index(a_.arg)]
+                    elif dflt.get(a_.arg) is not None:
+                        try:
+                            env0[a_.arg] = ast.literal_eval(dflt[a_.arg])
+                        except Exception:
+                            env0 = None
+                            break
+                    else:
+                        env0 = None
+                        break
+                if env0 is not None:
+                    def init_hook(call, it2):
+                        s2 = ast.unparse(call.func)
+                        if s2.endswith('is_parameterized'):
+                            return False
+                        if s2.endswith('validate_probability'):
+                            return it2.ev(call.args[0])
+                        return NotImplemented
+                    it0 = fdx.NumInterp(env0, call_hook=init_hook)
+                    it0.resolver = make_resolver(repo, ci.mod, init)
+                    try:
+                        it0.call(init)
+                        for k_, v_ in built.items():
+                            self_obj[k_] = v_
+                            if k_.startswith('_'):
+                                self_obj[k_[1:]] = v_
+                        if '_phi' in built:
+                            self_obj['phase'] = built['_phi']
+                    except (fdx.Unsupported, fdx.Raised):
+                        pass     # constructor outside the interpretable subset: fields as documented (parameter p -> self._p)
 
             def call_hook(call, it, ci=ci):
                 s_ = ast.unparse(call.func)
